@@ -22,6 +22,13 @@ def texts(maxlen, markers):
             if any(m.strip() in v or m in v for m in markers):
                 continue
             out.append(v)
+    # long names / descriptions: every length 2^k - 1, 2^k, 2^k + 1
+    unit = 'a é#:"F'
+    for k in range(5, 11 if maxlen <= 3 else 14):
+        for L in (2 ** k - 1, 2 ** k, 2 ** k + 1):
+            v = (unit * (L // len(unit) + 1))[:L].strip()
+            if not any(m.strip() in v or m in v for m in markers):
+                out.append(v)
     return out + ["Unnamed rule 1", "my filter", "Filter", "Description", "x: y", "été #1"]
 
 
